@@ -49,12 +49,37 @@ struct XUtils : Engine {
         }
         return d;
     }
+    // larger hand-written documents (deep nesting, long and awkward keys, 13-element arrays) and every single-edit mutation of them
+    std::vector<std::pair<size_t, size_t>> bigpairs;
+    static void mutate(const RV& root, std::vector<RV>& out) {
+        std::vector<std::vector<size_t>> paths; std::function<void(const RV&, std::vector<size_t>&)> rec = [&](const RV& v, std::vector<size_t>& p) { paths.push_back(p); size_t n = v.k == RV::Obj ? v.obj.size() : v.k == RV::Arr ? v.arr.size() : 0; for (size_t i = 0; i < n; i++) { p.push_back(i); rec(v.k == RV::Obj ? v.obj[i].second : v.arr[i], p); p.pop_back(); } };
+        std::vector<size_t> p0; rec(root, p0);
+        for (auto& p : paths) {
+            for (const RV& leaf : { RV::number(7), RV::string("chg"), RV::mk(RV::Null), RV::mk(RV::Arr) }) { RV m = root; *rv_at(m, p) = leaf; out.push_back(m); }
+            { RV m = root; RV* t = rv_at(m, p); if (t->k == RV::Obj) { t->obj.emplace_back("new/k~", RV::number(1)); out.push_back(m); RV m2 = root; RV* t2 = rv_at(m2, p); std::string fk = "0"; while (obj_get(*t2, fk)) fk += "0"; /* keys stay distinct per object */ t2->obj.insert(t2->obj.begin(), std::make_pair(fk, RV::string("front"))); out.push_back(m2); if (t->obj.size() > 2) { RV m3 = root; RV* t3 = rv_at(m3, p); std::swap(t3->obj[0], t3->obj[1]); out.push_back(m3); } }
+              else if (t->k == RV::Arr) { t->arr.push_back(RV::number(99)); out.push_back(m); RV m2 = root; RV* t2 = rv_at(m2, p); t2->arr.insert(t2->arr.begin(), RV::string("front")); out.push_back(m2); if (t->arr.size() > 3) { RV m3 = root; RV* t3 = rv_at(m3, p); t3->arr.erase(t3->arr.begin() + 1); out.push_back(m3); RV m4 = root; RV* t4 = rv_at(m4, p); t4->arr.resize(1); out.push_back(m4); } } }
+            if (!p.empty()) { RV m = root; std::vector<size_t> pp(p.begin(), p.end() - 1); RV* par = rv_at(m, pp); if (par->k == RV::Obj) par->obj.erase(par->obj.begin() + (long)p.back()); else par->arr.erase(par->arr.begin() + (long)p.back()); out.push_back(m); }
+        }
+    }
+    void build_big() {
+        if (built == "big") return; built = "big"; D.clear(); Dreal.clear(); DrealCS.clear(); bigpairs.clear();
+        static const char* texts[] = {
+            "{\"name\":\"cJSON\",\"tags\":[\"a\",\"b\",\"c\",{\"deep\":{\"deeper\":{\"deepest\":[1,2,[3,[4,{\"k/ey\":\"v~al\"}]]]}}}],\"n\":1.5,\"t\":true,\"z\":null,\"long key with spaces and / slash ~ tilde ~0 ~1\":\"x\",\"\":{\"\":{\"\":0}}}",
+            "[[[[[[1]]]]],[{\"a\":[{\"b\":[{\"c\":[]}]}]}],\"s\"]",
+            "{\"a\":{\"b\":{\"c\":{\"d\":{\"e\":{\"f\":\"g\"}}}}},\"list\":[0,1,2,3,4,5,6,7,8,9,10,11,12],\"B\":1,\"b\":2}",
+            "{\"z\":26,\"y\":25,\"x\":{\"w\":23,\"v\":[22,{\"u\":21,\"t\":20}]},\"A\":1,\"a\":2,\"\\u00e9\":3,\"_\":4,\"0\":5,\"01\":6,\"-\":7}",
+            "\"plain string\"", "42", "[]", "{}" };
+        for (auto t : texts) { RV v; if (!S_parse((const uint8_t*)t, strlen(t), v)) { fprintf(stderr, "bad big doc %s\n", t); abort(); } size_t oi = D.size(); D.push_back(v); std::vector<RV> ms; mutate(v, ms); for (auto& m : ms) { bigpairs.push_back({ oi, D.size() }); D.push_back(m); } }
+        for (auto& v : D) Dreal.push_back(nullptr);   // built per case
+    }
     void build(const std::string& which) {
+        if (which == "big") { build_big(); return; }
         if (built == which) return; built = which; D = docset(which); Dreal.clear();
         for (auto& v : D) Dreal.push_back(build_tree(v));
         DrealCS.clear(); if (mode == U_POINTER) for (auto& v : D) DrealCS.push_back(build_tree_cs(v));
     }
     std::string docs_for(const std::string& stage) {
+        if (stage.compare(0, 3, "big") == 0) return "big";
         if (mode == U_POINTER) return stage == "resolve4" || stage == "construct4" ? "ptr4" : "ptr";
         if (mode == U_MERGE) return stage.find("4") != std::string::npos ? "doc4" : "merge";
         if (mode == U_PATCH) { if (stage == "single1" || stage == "single1_hooks" || stage == "single2full" || stage == "robust") return "doc"; if (stage == "single4") return "doc4"; return "docs"; }
@@ -64,9 +89,9 @@ struct XUtils : Engine {
         init(); bool T = cfg.thorough(); std::vector<std::string> st;
         switch (mode) {
             case U_POINTER: { long k = cfg.optl("ptrlen", T ? 5 : 4); for (long i = 0; i <= k; i++) st.push_back("resolve_len" + std::to_string(i)); st.push_back("resolve_special"); st.push_back("construct"); if (T) { st.push_back("resolve4"); st.push_back("construct4"); } break; }
-            case U_PATCH: st = { "single1", "single1_hooks", "indices", "single2", "robust", "pairs" }; if (T) { st.push_back("single2full"); st.push_back("single3"); st.push_back("single4"); } break;
-            case U_GENERATE: st = { "pairs" }; if (T) st.push_back("pairs4"); break;
-            case U_MERGE: st = { "apply", "generate" }; if (T) { st.push_back("apply4"); st.push_back("generate4"); } break;
+            case U_PATCH: st = { "single1", "single1_hooks", "indices", "bigpatch", "single2", "robust", "pairs" }; if (T) { st.push_back("single2full"); st.push_back("single3"); st.push_back("single4"); } break;
+            case U_GENERATE: st = { "big", "pairs" }; if (T) st.push_back("pairs4"); break;
+            case U_MERGE: st = { "bigapply", "biggenerate", "apply", "generate" }; if (T) { st.push_back("apply4"); st.push_back("generate4"); } break;
         }
         return st;
     }
@@ -85,7 +110,7 @@ struct XUtils : Engine {
     // pointers that exist in the document or can be inserted into it
     static void doc_paths(const RV& v, const std::string& pre, std::vector<std::string>& exist, std::vector<std::string>& insertable) {
         exist.push_back(pre);
-        if (v.k == RV::Obj) { for (auto k : { "a", "A", "b", "a/b", "m~1", "" }) insertable.push_back(pre + "/" + ptr_encode_token(k)); for (auto& kv : v.obj) doc_paths(kv.second, pre + "/" + ptr_encode_token(kv.first), exist, insertable); }
+        if (v.k == RV::Obj) { for (auto k : { "a", "A", "b", "a/b", "m~1", "" }) { bool have = false; for (auto& kv : v.obj) if (kv.first == k) have = true; if (!have) insertable.push_back(pre + "/" + ptr_encode_token(k)); } for (auto& kv : v.obj) doc_paths(kv.second, pre + "/" + ptr_encode_token(kv.first), exist, insertable); }
         if (v.k == RV::Arr) { for (size_t i = 0; i <= v.arr.size(); i++) insertable.push_back(pre + "/" + std::to_string(i)); insertable.push_back(pre + "/-"); for (size_t i = 0; i < v.arr.size(); i++) doc_paths(v.arr[i], pre + "/" + std::to_string(i), exist, insertable); }
     }
     void run_patch(size_t doc, const RV& patch) { static Case c; c.kind = K_PATCH; c.iv[1] = (int64_t)doc; c.iv[3] = hooks_stage; std::string s = rv_ser(patch); if (s.size() > sizeof c.data) return; c.set(s); ctr().extra[4]++; pool_run(c); }
@@ -120,6 +145,17 @@ struct XUtils : Engine {
                 std::vector<std::string> paths = token_paths(L), froms = token_paths(L > 2 ? 2 : L);
                 std::vector<RV> ops = single_ops(paths, froms);
                 for (size_t d = 0; d < D.size(); d++) for (size_t chunk = 0; chunk < ops.size(); chunk += 64) { if (!pool_take()) continue; for (size_t o = chunk; o < ops.size() && o < chunk + 64; o++) { RV p = RV::mk(RV::Arr); p.arr.push_back(ops[o]); run_patch(d, p); } }
+            } else if (stage == "bigpatch") {
+                // every operation on every existing / insertable location of the larger documents (paths up to 9 tokens deep)
+                for (size_t d = 0; d < D.size(); d++) {
+                    bool is_orig = true; for (auto& pr : bigpairs) if (pr.second == d) { is_orig = false; break; } if (!is_orig) continue;
+                    std::vector<std::string> ex, ins; doc_paths(D[d], "", ex, ins); std::vector<std::string> all = ex; all.insert(all.end(), ins.begin(), ins.end());
+                    std::vector<RV> ops; RV v1 = RV::number(1), v3 = RV::mk(RV::Obj);
+                    for (auto& p : all) { ops.push_back(mkop("add", p, nullptr, &v1)); ops.push_back(mkop("add", p, nullptr, &v3)); }
+                    for (auto& p : ex) { ops.push_back(mkop("remove", p, nullptr, nullptr)); ops.push_back(mkop("replace", p, nullptr, &v3)); ops.push_back(mkop("test", p, nullptr, rv_at(const_cast<RV&>(D[d]), path_of(D[d], p)))); ops.push_back(mkop("test", p, nullptr, &v1)); }
+                    for (size_t a = 0; a < ex.size(); a += 1) for (size_t b = 0; b < all.size(); b += 3) { ops.push_back(mkop("move", all[b], &ex[a], nullptr)); ops.push_back(mkop("copy", all[b], &ex[a], nullptr)); }
+                    for (size_t chunk = 0; chunk < ops.size(); chunk += 32) { if (!pool_take()) continue; for (size_t o = chunk; o < ops.size() && o < chunk + 32; o++) { RV p = RV::mk(RV::Arr); p.arr.push_back(ops[o]); static Case c; c.kind = K_PATCH; c.iv[1] = -1; c.iv[3] = 0; std::string ser = rv_ser(D[d]) + "\x1f" + rv_ser(p); if (ser.size() > sizeof c.data) continue; c.set(ser); ctr().extra[4]++; pool_run(c); } }
+                }
             } else if (stage == "indices") {
                 // array index tokens that must be rejected (or are just valid) in every operation and position
                 std::vector<std::string> toks = { "18446744073709551616", "18446744073709551617", "18446744073709551615", "4294967296", "4294967297", "2147483648", "01", "00", "1e0", "-1", "+1", " 1", "1 ", "0x1", "1.0", "", "0", "1", "2", "3", "-" };
@@ -152,6 +188,11 @@ struct XUtils : Engine {
                 for (size_t d : docs) for (auto k : keys) for (size_t vi = 0; vi < vals.size(); vi++) { if (!pool_take()) continue; RV o = RV::mk(RV::Obj); o.obj.emplace_back(k, vals[vi]); rec(o, maxm - 1, d); }
                 for (size_t d : docs) { if (!pool_take()) continue; for (auto& v : vals) { run_patch(d, v); RV p = RV::mk(RV::Arr); p.arr.push_back(v); run_patch(d, p); } RV e = RV::mk(RV::Obj); run_patch(d, e); RV ea = RV::mk(RV::Arr); run_patch(d, ea); }
             }
+            return;
+        }
+        if (stage.compare(0, 3, "big") == 0 && mode != U_PATCH) {
+            int kind = mode == U_GENERATE ? K_GEN : (stage == "bigapply" ? K_MERGE : K_MGEN);
+            for (auto& pr : bigpairs) { if (!pool_take()) continue; static Case c; c.kind = (uint32_t)kind; c.len = 0; c.iv[1] = (int64_t)pr.first; c.iv[2] = (int64_t)pr.second; pool_run(c); c.iv[1] = (int64_t)pr.second; c.iv[2] = (int64_t)pr.first; pool_run(c); }
             return;
         }
         // pair spaces (C17, C18)
